@@ -161,7 +161,7 @@ fn ark_part(ctx: &Ctx, rec: &mut Rec, zoo: &[SE]) {
     let mut srng = rng_for(ctx.seed, P, 999, 1);
     let mut strings: Vec<(Vec<u8>, &'static str)> = crate::zoo::bytes_zoo(&c.f, &mut srng, 50);
     for len in [31usize, 32, 33, 48, 64] {
-        for _ in 0..ctx.scale(4000, 400_000) {
+        for _ in 0..ctx.scale(20_000, 400_000) {
             strings.push((rand_bytes(&mut srng, len), "random"));
         }
     }
@@ -209,7 +209,7 @@ fn ark_part(ctx: &Ctx, rec: &mut Rec, zoo: &[SE]) {
     }
     par(rec, |w, n, rec| {
         let mut rng = rng_for(ctx.seed, P, w, 2);
-        let reps = ctx.scale(2000, 200_000);
+        let reps = ctx.scale(10_000, 200_000);
         for rep in 0..reps {
             if rep % n != w {
                 continue;
@@ -264,7 +264,7 @@ fn ark_part(ctx: &Ctx, rec: &mut Rec, zoo: &[SE]) {
     }
     par(rec, |w, n, rec| {
         let mut rng = rng_for(ctx.seed, P, w, 3);
-        let nprog = ctx.scale(100, 10000);
+        let nprog = ctx.scale(600, 10000);
         for pi in 0..nprog {
             if pi % n != w {
                 continue;
@@ -317,7 +317,7 @@ pub fn run(ctx: &Ctx, rec: &mut Rec) {
     rec.declare_form("Element::hash_to_curve");
     par(rec, |w, n, rec| {
         let mut rng = rng_for(ctx.seed, P, w, 4);
-        let reps = ctx.scale(3000, 300_000);
+        let reps = ctx.scale(12_000, 300_000);
         for rep in 0..reps {
             if rep % n != w {
                 continue;
